@@ -6,6 +6,7 @@ type Tables struct {
 }
 
 func extractRest(p *pkgInfo, repo string, t *Tables) {
+	thePkg = p
 	t.Codes = codeTables(p)
 	fd := funcDictTables(p)
 	for _, d := range dictTables(p) {
@@ -17,7 +18,10 @@ func extractRest(p *pkgInfo, repo string, t *Tables) {
 }
 
 
+var thePkg *pkgInfo
+
 func emitRest(dir string, t *Tables) {
+	emitSplit(dir, thePkg)
 	emitRules(dir, t)
 	emitCp037(dir)
 }
